@@ -132,6 +132,9 @@ class Setup:
                   lambda: f.target_event_rates(CSEPCatalog(data=[inside, outside], region=region), scale=True),
                   lambda: f.target_event_rates(CSEPCatalog(data=[inside, ("low",) + inside[1:5] + (low,)], region=region), scale=True),
                   lambda: CSEPCatalog(data=[inside, outside], region=region).spatial_magnitude_counts(),
+                  lambda: CSEPCatalog(data=[inside, outside], region=region).spatial_magnitude_counts(mag_bins=numpy.array([e + 0.4 * self.hm for e in self.edges])),
+                  lambda: CSEPCatalog(data=[inside, ("low",) + inside[1:5] + (low,)], region=region).spatial_magnitude_counts(mag_bins=numpy.array([e + 0.4 * self.hm for e in self.edges])),
+                  lambda: CSEPCatalog(data=[("low",) + inside[1:5] + (low,)], region=region).magnitude_counts(mag_bins=numpy.array([e - 0.3 * self.hm for e in self.edges])),
                   lambda: CSEPCatalog(data=[outside, inside], region=region).spatial_counts(),
                   lambda: CSEPCatalog(data=[outside, inside], region=region).spatial_event_probability()) + self.early_exits(f, region):
             try:
